@@ -2,7 +2,7 @@
 
 mod api;
 
-use actix_web::{get, middleware, web, Responder};
+use actix_web::{get, middleware, web, HttpResponse, Responder};
 use api::{api_scope, ServerState};
 use std::{collections::HashSet, sync::Arc};
 use taskchampion_sync_server_core::{Server, ServerConfig, Storage};
@@ -45,6 +45,13 @@ impl WebServer {
                 .service(index)
                 .service(api_scope()),
         );
+        // A request whose target is not a path (`OPTIONS *`) is not matched by the scope above and
+        // falls through to the default service; answer it with the same headers.
+        cfg.default_service(web::to(|| async {
+            HttpResponse::NotFound()
+                .insert_header(("Cache-Control", "no-store, max-age=0"))
+                .finish()
+        }));
     }
 }
 
